@@ -1,6 +1,6 @@
 """C14 - number, string, formatting and encoding functions match reference semantics."""
 import json
-FNS = ["ceil", "floor", "int", "signum", "abs", "negate", "add", "subtract", "multiply", "divide", "modulo", "lessthan", "greaterthan",
+FNS = ["regex", "regexall", "regexreplace", "ceil", "floor", "int", "signum", "abs", "negate", "add", "subtract", "multiply", "divide", "modulo", "lessthan", "greaterthan",
        "lessthanorequalto", "greaterthanorequalto", "equal", "notequal", "pow", "log", "min", "max", "parseint",
        "upper", "lower", "title", "strlen", "reverse", "chomp", "trimspace", "substr", "join", "split", "indent", "trim", "trimprefix",
        "trimsuffix", "replace", "format", "formatlist", "jsonencode", "jsonencode>jsondecode", "csvdecode", "formatdate", "timeadd"]
